@@ -16,10 +16,10 @@ class SQLParser(Parser):
         ('left', AND),
         ('right', UNOT),
         ('left', EQUALS, NEQUALS),
-        ('left', PLUS, MINUS),
-        ('left', STAR, DIVIDE),
-        ('right', UMINUS),  # Unary minus operator, unary not
         ('nonassoc', LESS, LEQ, GREATER, GEQ, IN, BETWEEN, IS, IS_NOT, LIKE),
+        ('left', PLUS, MINUS),
+        ('left', STAR, DIVIDE, MODULO),
+        ('right', UMINUS),  # Unary minus operator, unary not
     )
 
     # Top-level statements
